@@ -25,6 +25,7 @@ EXPLANATION = (
     "forwards tz/locale and fills a missing tz; (7) the z token's pattern admits three-part IANA names and the values are "
     "extracted from the anchored match (a localized name that is a prefix of another must not win). NOT decided: equality with strftime for every value, regex "
     "backtracking on literal separators, zone abbreviations."
+    " Also: _check_parsed's defaulting lattice - an absent date field is reset to 1 exactly when a coarser field was parsed, otherwise taken from `now`; absent time fields are 0; the year is settled before day-of-year/day-of-week use it."
 )
 
 FMT = "formatting.formatter"
